@@ -60,7 +60,7 @@ class Mod:
             raise AnalysisError("cannot parse %s: %s" % (self.rel, e))
         # helpers introduced after the pinned commit are inlined into their callers (see inline.py)
         from inline import Inliner
-        self.inlined = Inliner(name, self.tree).run()
+        self.inlined = Inliner(name, self.tree, path=self.path).run()
         set_parents(self.tree)
         self.classes = {}
         self.funcs = {}
@@ -68,6 +68,7 @@ class Mod:
         self.star_imports = []
         self.from_imports = {}   # local name -> (module, name)
         self.imports = {}        # local alias -> module
+        self.built = {}          # module-level names updated after their first assignment -> [statements] (in order)
         for st in self.tree.body:
             if isinstance(st, ast.ClassDef):
                 self.classes[st.name] = ClassInfo(self, st)
@@ -86,6 +87,29 @@ class Mod:
             elif isinstance(st, ast.Import):
                 for a in st.names:
                     self.imports[a.asname or a.name] = a.name
+        # names whose module-level value is built by later statements (x = {}; for ...: x.setdefault(...); x[k] = v;
+        # x += ...; second assignment): the first assignment alone is NOT their value
+        for nm in list(self.consts):
+            touching = []
+            for st in self.tree.body:
+                if isinstance(st, (ast.FunctionDef, ast.ClassDef, ast.Import, ast.ImportFrom)):
+                    continue
+                hit = False
+                for n in ast.walk(st):
+                    if isinstance(n, (ast.FunctionDef, ast.Lambda)):
+                        continue
+                    if isinstance(n, ast.Name) and n.id == nm:
+                        par = getattr(n, "_parent", None)
+                        if isinstance(n.ctx, (ast.Store, ast.Del)):
+                            hit = True
+                        elif isinstance(par, ast.Attribute) and par.attr in MUTATORS and isinstance(getattr(par, "_parent", None), ast.Call):
+                            hit = True
+                        elif isinstance(par, ast.Subscript) and par.value is n and isinstance(par.ctx, (ast.Store, ast.Del)):
+                            hit = True
+                if hit:
+                    touching.append(st)
+            if len(touching) > 1:
+                self.built[nm] = touching
 
 
 def clone(n):
@@ -457,6 +481,18 @@ class CFG:
                 out.append((c, l))
         return out
 
+    def guards_from(self, src, target):
+        """Branch edges used by every path from `src` to `target` (edge-dominators relative to src)."""
+        if target.id not in self.reach(src, labels_skip=()):
+            return None
+        out = []
+        for (c, l) in self.branch_edges():
+            if c.id == target.id:
+                continue
+            if target.id not in self.reach(src, skip_edge=(c, l), labels_skip=()):
+                out.append((c, l))
+        return out
+
     def dominates(self, a, b):
         """Every path entry->b passes through a."""
         if a.id == b.id:
@@ -605,6 +641,18 @@ def guard_literals(cfg, target, subst=None, with_done=False):
                 out.add(("for %s in %s" % (canon(c.ast.target), canon(c.ast.iter, subst)), True))
             elif with_done:
                 out.add(("done %s in %s" % (canon(c.ast.target), canon(c.ast.iter, subst)), True))
+    return out
+
+
+def guard_literals_from(cfg, src, target, subst=None):
+    """literals that hold on every path from src to target (None if target is unreachable from src)"""
+    g = cfg.guards_from(src, target)
+    if g is None:
+        return None
+    out = set()
+    for (c, l) in g:
+        if c.kind == "cond":
+            out |= literals(c.ast.test, bool(l), subst)
     return out
 
 
